@@ -96,6 +96,14 @@ func init() {
 															rq = SymReq{Browser: "b1", Method: []string{"GET", "POST"}[rng.Intn(2)], Route: "App", Arg: string(b),
 																Path: "/app/" + string(b) + "/" + tails[rng.Intn(len(tails))], Query: queries[rng.Intn(len(queries))]}
 															rawLiteral(&rq)
+															if k == 2 && row%3 == 0 {
+																// the decision does not depend on the method or on headers the client chooses:
+																// a CORS preflight, a HEAD, a PATCH with override headers
+																rq.Method = "PUT"
+																rq.Wire = []string{"OPTIONS", "HEAD", "PATCH"}[(row/3)%3]
+																rq.Hdr = [][2]string{{"Origin", "https://elsewhere.example"}, {"Access-Control-Request-Method", "DELETE"},
+																	{"Access-Control-Request-Headers", "authorization"}, {"X-HTTP-Method-Override", "GET"}}
+															}
 														}
 														step := SymStep{Kind: "req", Req: &rq}
 														if storage != "ok" {
